@@ -81,7 +81,7 @@ enum St {
     Dead,
 }
 
-#[derive(Clone, Copy, PartialEq, Debug)]
+#[derive(Clone, PartialEq, Debug)]
 enum Policy {
     Uniform,
     RoundRobin,
@@ -90,6 +90,9 @@ enum Policy {
     Adversarial,
     /// run the same worker for a random burst of accesses
     Bursts,
+    /// bounded preemption: keep running the current worker; at the listed global access
+    /// indices (and when it finishes) hand over to the next parked worker, cyclically
+    Preempt(Vec<usize>),
 }
 
 struct Sched {
@@ -181,7 +184,8 @@ fn make_hook(sh: &Arc<Shared>) -> Arc<verif::Hook> {
 }
 
 fn choose(g: &mut Sched, parked: &[usize]) -> usize {
-    match g.policy {
+    let policy = g.policy.clone();
+    match policy {
         Policy::Uniform => parked[g.rng.below(parked.len() as u64) as usize],
         Policy::RoundRobin => {
             let n = g.st.len();
@@ -198,6 +202,15 @@ fn choose(g: &mut Sched, parked: &[usize]) -> usize {
             } else {
                 parked[g.rng.below(parked.len() as u64) as usize]
             }
+        }
+        Policy::Preempt(points) => {
+            let n = g.st.len();
+            let switch = points.contains(&g.choices);
+            let mut t = if switch { (g.last + 1) % n } else { g.last % n };
+            while !parked.contains(&t) {
+                t = (t + 1) % n;
+            }
+            t
         }
         Policy::Bursts => {
             if g.burst_left > 0 && parked.contains(&g.last) {
@@ -424,14 +437,73 @@ fn gen_case(r: &mut Rng) -> Case {
         5..=7 => 3,
         _ => 4,
     };
-    let policy = match r.below(8) {
+    let policy = match r.below(9) {
         0 | 1 => Policy::Uniform,
         2 => Policy::RoundRobin,
         3 | 4 | 5 => Policy::Adversarial,
+        6 => {
+            let k = r.range(1, 4) as usize;
+            let mut pts: Vec<usize> = (0..k).map(|_| r.below(160) as usize).collect();
+            pts.sort();
+            Policy::Preempt(pts)
+        }
         _ => Policy::Bursts,
     };
     let csr = g.is_csr() && r.chance(1, 2);
     Case { family, g, vw, p0, threads, mi, policy, sseed: r.next(), csr }
+}
+
+/// A small two- or three-worker input on which the uninterrupted schedule moves vertices:
+/// the base of a systematic sweep over preemption points.
+fn gen_sweep_base(seed: u64) -> (Case, usize) {
+    let mut r = Rng::new(seed);
+    let mut last = None;
+    for _ in 0..40 {
+        let n = r.range(4, 6) as usize;
+        let mut g = AdjGraph::new(n);
+        match r.below(3) {
+            0 => {
+                for i in 0..n - 1 {
+                    g.edge(i, i + 1, r.range(1, 2));
+                }
+            }
+            1 => {
+                for i in 0..n {
+                    g.edge(i, (i + 1) % n, 1);
+                }
+            }
+            _ => {
+                for a in 0..n {
+                    for b in 0..a {
+                        if r.below(100) < 60 {
+                            g.edge(a, b, r.range(1, 3));
+                        }
+                    }
+                }
+            }
+        }
+        let k = r.range(2, 3) as usize;
+        let p0: Vec<usize> = (0..n).map(|i| if r.chance(1, 4) { r.below(k as u64) as usize } else { i % k }).collect();
+        let c = Case {
+            family: "sweep".to_string(),
+            g,
+            vw: (0..n).map(|_| r.range(1, 2)).collect(),
+            p0,
+            threads: r.range(2, 3) as usize,
+            mi: Some(*r.pick(&[1.0, 3.0])),
+            policy: Policy::Preempt(vec![]),
+            sseed: 1,
+            csr: false,
+        };
+        let o = run_case(&c);
+        let good = matches!(&o.res, Guarded::Done((_, md)) if md.move_count > 0) && o.choices <= 140;
+        let l = o.choices;
+        last = Some((c, l));
+        if good {
+            break;
+        }
+    }
+    last.unwrap()
 }
 
 struct Outcome {
@@ -458,7 +530,7 @@ fn run_case(c: &Case) -> Outcome {
             late_starts: 0,
             dead: 0,
             rng: Rng::new(c.sseed),
-            policy: c.policy,
+            policy: c.policy.clone(),
             last: 0,
             burst_left: 0,
         }),
@@ -539,14 +611,54 @@ fn main() {
     let (mut hangs, mut panics, mut late, mut dead, mut events, mut moved_cases) = (0usize, 0usize, 0usize, 0usize, 0usize, 0usize);
     let (mut rerun, mut rerun_diff, mut multi_pass, mut raced_cases, mut locked_cases, mut balance_cases) =
         (0usize, 0usize, 0usize, 0usize, 0usize, 0usize);
-    for idx in 0..a.cases {
-        let mut r = rng.fork();
-        let c = gen_case(&mut r);
-        if let Some(o) = a.only {
-            if o != idx {
-                continue;
+    // plan: systematic sweeps over preemption points first, random cases after
+    let thorough = a.tier == "thorough";
+    let mut sweep: Vec<(usize, Vec<usize>)> = Vec::new(); // (base, preemption points)
+    let mut bases: Vec<Case> = Vec::new();
+    let nb = if thorough { 3 } else { 1 };
+    for b in 0..nb {
+        let (base, l) = gen_sweep_base(a.seed.wrapping_mul(1000).wrapping_add(b as u64));
+        bases.push(base);
+        // every single preemption point; in the thorough tier also every pair (evenly thinned to 1200)
+        for i in 0..l {
+            sweep.push((b, vec![i]));
+        }
+        if thorough {
+            let total = l * l.saturating_sub(1) / 2;
+            let stride = (total / 1200).max(1);
+            let mut c = 0usize;
+            for i in 0..l {
+                for j in i + 1..l {
+                    if c % stride == 0 {
+                        sweep.push((b, vec![i, j]));
+                    }
+                    c += 1;
+                }
             }
         }
+    }
+    sweep.truncate(a.cases / 2);
+    let mut sweep_cases = 0usize;
+    for idx in 0..a.cases {
+        let mut r = rng.fork();
+        let c = if idx < sweep.len() {
+            let (b, pts) = &sweep[idx];
+            sweep_cases += 1;
+            let base = &bases[*b];
+            Case {
+                family: format!("sweep{}", pts.len()),
+                g: base.g.clone(),
+                vw: base.vw.clone(),
+                p0: base.p0.clone(),
+                threads: base.threads,
+                mi: base.mi,
+                policy: Policy::Preempt(pts.clone()),
+                sseed: 1,
+                csr: false,
+            }
+        } else {
+            gen_case(&mut r)
+        };
         let o = run_case(&c);
         late += o.late;
         dead += o.dead;
@@ -652,15 +764,18 @@ fn main() {
             Guarded::Done((_, md)) => md.move_count > 0 && work_share(n, c.threads).1 >= 2,
             _ => false,
         };
-        let fam = format!("{}/{:?}", c.family, c.policy);
+        let fam = match &c.policy {
+            Policy::Preempt(_) => format!("{}/Preempt", c.family),
+            p => format!("{}/{:?}", c.family, p),
+        };
         w.push(coq, json, &key, nontrivial, &fam);
         if hangs > 2 {
             break;
         }
     }
     w.finish(&format!(
-        "\"hangs\":{},\"panics\":{},\"late_starts\":{},\"dead_workers\":{},\"events\":{},\"cases_with_moves\":{},\"cases_with_3plus_passes\":{},\"cases_with_races\":{},\"cases_with_lock_conflicts\":{},\"cases_with_balance_refusals\":{},\"reruns\":{},\"rerun_trace_differs\":{}",
-        hangs, panics, late, dead, events, moved_cases, multi_pass, raced_cases, locked_cases, balance_cases, rerun, rerun_diff
+        "\"hangs\":{},\"panics\":{},\"systematic_sweep_cases\":{},\"late_starts\":{},\"dead_workers\":{},\"events\":{},\"cases_with_moves\":{},\"cases_with_3plus_passes\":{},\"cases_with_races\":{},\"cases_with_lock_conflicts\":{},\"cases_with_balance_refusals\":{},\"reruns\":{},\"rerun_trace_differs\":{}",
+        hangs, panics, sweep_cases, late, dead, events, moved_cases, multi_pass, raced_cases, locked_cases, balance_cases, rerun, rerun_diff
     ));
 }
 
